@@ -24,6 +24,11 @@ class Reject(Exception):
         self.pos = pos
 
 
+class RoundAbort(Exception):
+    """back / back11: an exception left the dispatch of the completion event before the model's current
+    region was reached (thrown by a retried guard of an earlier region)"""
+
+
 class ModelThrow(Exception):
     def __init__(self, seq):
         Exception.__init__(self, 'throw %d' % seq)
@@ -105,9 +110,9 @@ class MI:
 class Acceptor:
     def __init__(self, spec, cfg, switch=0, ix=None):
         self.spec = spec
-        self.ix = ix or Index(spec)
         self.cfg = cfg
         self.fam = {'b': 'back', 'bc': 'back', 'bq': 'back', 'b11': 'back11'}.get(cfg, 'mp11')
+        self.ix = ix or Index(spec, self.fam if self.fam != 'mp11' else 'backmp11')
         self.mp = self.fam == 'mp11'
         self.switch = switch
         self.cov = {}
@@ -123,7 +128,9 @@ class Acceptor:
         self.dispatched_keys = set()
         self.tolerate = set()      # rule ids that are reported but do not abort (known findings mode)
         self.threw = False
+        self.in_round = None
         self.ledger_errors = []
+        self.in_entry_of = None
         self.zoo_stats = None
         self.weak = False
         self.weak_pending = False
@@ -218,9 +225,12 @@ class Acceptor:
                 mname, sname = parts[0], parts[1]
                 root = self.inst.get(self.cur_tag)
                 mi = self.find_instance(root, mname) if root and mname else None
+                if mi is not None and sname in mi.active and mi.processing and sname in mi.comp_aborted:
+                    return          # belongs to the completion event that machine sends once its step is over
                 if mi is not None and sname in mi.active and not mi.processing and sname in mi.comp_aborted:
-                    mi.comp_aborted.discard(sname)
-                    mi.comp = [mi.active.index(sname)]
+                    # the completion event reaches every region in order: all aborted states are offered
+                    mi.comp = sorted((mi.active.index(x), x) for x in mi.comp_aborted if x in mi.active)
+                    mi.comp_aborted.clear()
                     self.counts['completion_reoffered'] = self.counts.get('completion_reoffered', 0) + 1
                     self.schedule(mi)
                     continue
@@ -238,13 +248,24 @@ class Acceptor:
                 return
             self.counts['completion_retries'] = self.counts.get('completion_retries', 0) + 1
             self.take()
-            # effects / failpoint attached to the re-evaluation
+            # effects / failpoint attached to the re-evaluation; the guard runs inside the dispatch of a
+            # completion event, so calls made from it (or from exception_caught) find the machine busy
+            was = mi.processing
+            mi.processing = True
             try:
                 self.after_cb('G', got.site, mi)
             except ModelThrow as t:
                 self.expect_cb('XC', mi.name, mi, 'none', -1, {'C12'}, 'exception-caught', v=t.seq)
                 self.after_cb('C', mi.name, mi)
                 self.threw = True
+                if was and self.in_round is mi:
+                    # the retried guard belongs to the completion event this machine is dispatching right
+                    # now: the exception aborts that dispatch, the regions after it are not reached
+                    raise RoundAbort()
+            finally:
+                mi.processing = was
+            if not was and mi.queue:
+                self.schedule(mi)
 
     def was_evaluated(self, mi, sname, gsite):
         return gsite in mi.cg_seen.get(sname, ())
@@ -261,6 +282,10 @@ class Acceptor:
             self.skip_completion_retries()
             got = self.peek()
         if got is None or got.k != kind or got.site != site:
+            if got is not None and got.k == 'NT' and kind != 'NT':
+                tags = set(tags) | {'C06'}      # no_transition although something matched (C06 'exactly when')
+                if mi is not None and got.m.split(':')[-1] != mi.name:
+                    tags |= {'C07'}             # ... and the match lies in a deeper machine: not forwarded
             self.reject(tags, rule, '%s %s %s:%s' % (kind, site, label, id_), got)
         ev = self.norm_ev(got)
         if own_entry and ev is not None and ev.startswith('W/'):
@@ -390,6 +415,25 @@ class Acceptor:
                 return True
         return False
 
+    def held_deferred(self, root, id_):
+        """is the occurrence with this id currently retained as deferred somewhere below root?"""
+        for mi in root.all():
+            if any(o.id == id_ for o in mi.deferred):
+                return True
+            if self.mp and any(o.id == id_ and self.list_defers(mi, o.typ, True) for o in mi.queue):
+                return True
+        return False
+
+    def ever_deferrable(self, mi, typ):
+        """some active state of mi (recursively) lists typ as deferred, whatever its predicate says now"""
+        for sn in mi.active:
+            st = mi.m['states'][sn]
+            if typ in st['deferred']:
+                return True
+            if st['kind'] == 'sub' and self.ever_deferrable(mi.children[sn], typ):
+                return True
+        return False
+
     def blocked(self, mi, typ):
         """C11: terminate / interrupt; flags are looked up recursively in active submachines"""
         if not mi.has_blocking:
@@ -479,6 +523,13 @@ class Acceptor:
             self.hit('C12', ('caught', mi.name, self.ix.depth[mi.name], occ.typ == 'none'))
             self.threw = True
             res = 0
+            if not self.mp and mi.comp:
+                # back / back11 run completion processing only after a handled event: a state entered in an
+                # earlier region of the aborted step gets its completion offered with the next handled event
+                for r, _sn in mi.comp:
+                    if mi.active[r] is not None:
+                        mi.comp_aborted.add(mi.active[r])
+                mi.comp = []
             mi.processing = False
             self.stack.pop()
             return res
@@ -645,8 +696,14 @@ class Acceptor:
             mi.active[r] = self.phase_id('exit', src, tgt)
             self.run_actions(mi, row, lab, occ, tags)
             mi.active[r] = self.phase_id('action', src, tgt)
+            self.in_entry_of = tgt
             self.enter_state(mi, tgt, lab, occ, tags, row['tgt'])
+            self.in_entry_of = None
         except ModelThrow:
+            if self.switch == 0 and src == tgt and mi.kind(tgt) == 'sub' and self.in_entry_of == tgt:
+                # self-transition on a submachine aborted inside its entry: the region still shows the
+                # half-entered submachine (same situation as below)
+                self.weak_pending = True
             if self.switch != 0 and (mi.kind(src) == 'sub' or mi.kind(tgt) == 'sub'):
                 # a non-default switch policy plus an aborted transition out of / into a submachine leaves a
                 # half-exited or never-entered submachine shown as active: continuation is only watched (C12)
@@ -668,9 +725,9 @@ class Acceptor:
         mi.comp_aborted.discard(sn)
         if mi.kind(sn) != 'sub' and any(self.ix.row_src_state(rw) == sn and rw['ev'] is None for rw in mi.m['table']):
             if self.mp:
-                mi.comp.insert(0, r)
+                mi.comp.insert(0, (r, sn))
             else:
-                mi.comp.append(r)
+                mi.comp.append((r, sn))
 
     def subconfig(self, mi, sn):
         if mi.kind(sn) == 'sub':
@@ -763,13 +820,16 @@ class Acceptor:
         child.running = True
         child.processing = True
         child.active = cfg
-        if self.mp and not restored:
-            child.queue = []
-            child.deferred = []
-            child.comp = []
+        if not self.mp:
+            child.comp = []        # back evaluates completion synchronously: nothing can be left from a previous activation
         self.expect_cb('EN', site, fsm, lab, occ.id, tags | ({'C09'} if named else set()), 'entry-machine', own_entry=True)
         try:
             self.after_cb('N', site, fsm)
+            if self.mp and not restored:
+                # backmp11 resets the pool of a submachine entered without history - after the machine's own on_entry
+                child.queue = []
+                child.deferred = []
+                child.comp = []
             # full fork in backmp11 enters in the listed order, otherwise region order
             order = range(child.n)
             for r in order:
@@ -802,19 +862,39 @@ class Acceptor:
         self.schedule(mi, after_handled=handled, src=src)
 
     def completion_round(self, mi):
-        """evaluate pending completion transitions of mi (C10); returns True if one fired"""
+        """evaluate pending completion transitions of mi (C10); returns True if one fired.
+        backmp11: one occurrence per entered state, each its own step. back / back11: one dispatch of the
+        completion event to all regions in order - an exception aborts the whole round (the regions not
+        reached are offered again with the next completion event)."""
         fired = False
         none = Occ('none', -1, self.gseq)
+        if mi.comp and not self.mp:
+            # the completion event reaches every region in order, so states whose completion step was
+            # aborted earlier (never evaluated since they were entered) are evaluated by it as well
+            live = [(r, s) for r, s in mi.comp if mi.active[r] == s]
+            live += [(mi.active.index(x), x) for x in mi.comp_aborted if x in mi.active and (mi.active.index(x), x) not in live]
+            mi.comp_aborted.clear()
+            mi.comp = sorted(live)
         while mi.comp:
-            r = mi.comp.pop(0)
+            r, entered = mi.comp.pop(0)
+            if mi.active[r] != entered:
+                continue            # obsolete: the state was left since (pool survived an aborted entry)
             if self.blocked_completion(mi):
                 continue
             rows = self.candidates(mi, mi.active[r], 'none')
             if not rows:
                 continue
             mi.processing = True
+            self.in_round = mi
             try:
                 res = self.chain(mi, r, rows, none, {'C10', 'C01'})
+            except RoundAbort:
+                res = 0
+                mi.comp_aborted.add(entered)
+                for r2, e2 in mi.comp:
+                    if mi.active[r2] == e2:
+                        mi.comp_aborted.add(e2)
+                mi.comp = []
             except ModelThrow as t:
                 self.expect_cb('XC', mi.name, mi, 'none', -1, {'C12'}, 'exception-caught', v=t.seq)
                 self.after_cb('C', mi.name, mi)
@@ -822,7 +902,13 @@ class Acceptor:
                 res = 0
                 if mi.active[r] is not None:
                     mi.comp_aborted.add(mi.active[r])
+                if not self.mp:
+                    for r2, e2 in mi.comp:
+                        if mi.active[r2] == e2:
+                            mi.comp_aborted.add(e2)
+                    mi.comp = []
             mi.processing = False
+            self.in_round = None
             self.hit('C10', (mi.name, mi.active[r], res & 7, len(mi.queue), len(mi.deferred)))
             fired |= bool(res & T)
         return fired
@@ -843,6 +929,7 @@ class Acceptor:
         order permitted by C04 / C05, chosen by the observed trace"""
         if mi.processing:
             return
+        mi.sched_op = self.counts['ops']
         self.completion_round(mi)
         guard = 0
         while True:
@@ -875,7 +962,10 @@ class Acceptor:
                 res = self.step(mi, occ, self.src_of(mi, occ))     # emits no expectation; may defer the occurrence
                 self.post_queued(mi, res)
                 continue
+            before = len(mi.queue)
             self.skip_completion_retries()
+            if len(mi.queue) != before:
+                continue            # an exception_caught handler inside a retried completion step enqueued
             nxt = self.peek()
             if nxt is None:
                 return
@@ -1041,6 +1131,11 @@ class Acceptor:
                 continue
             if drains and mi.queue:
                 left = [o for o in mi.queue if not (self.mp and self.list_defers(mi, o.typ, True))]
+                if self.mp and mi.parent is not None and getattr(mi, 'sched_op', -1) != self.counts['ops']:
+                    # backmp11: the pool of a submachine is processed when that submachine has processed an
+                    # event; an occurrence it holds deferred (predicate true when it was last offered) stays
+                    # there while the operation does not reach the submachine, whatever the predicate says now
+                    left = [o for o in left if o.dispatched == 0 and not self.ever_deferrable(mi, o.typ)]
                 if left and not self.blocked(mi, left[0].typ):
                     self.reject({'C04'}, 'queued-not-dispatched', 'empty queue on %s, has %s' % (mi.name, left))
             if op in ('process', 'drain') or (op == 'drain1' and not self.mp):
@@ -1176,6 +1271,8 @@ class Acceptor:
             tags = {'C04', 'C11'} if was_blocked else {'C01', 'C02', 'C04', 'C06'}
             if nxt is not None and nxt.k in ('G', 'A', 'EX') and not was_blocked:
                 tags = {'C01', 'C07'}
+            if nxt is not None and nxt.id >= 0 and self.held_deferred(root, nxt.id):
+                tags = tags | {'C05'}     # an occurrence the configuration defers was dispatched / reported
             self.reject(tags, 'surplus-record', 'RET', nxt)
         self.take()
         if nxt.k == 'ESC':
